@@ -209,8 +209,8 @@ func Load(cfgID string, o Opts) (*Program, error) {
 		}
 	}
 	sort.Slice(p.Pkgs, func(i, j int) bool { return p.Pkgs[i].PkgPath < p.Pkgs[j].PkgPath })
-	if len(p.Pkgs) != ExpectedPackages && o.Dir == "" {
-		return nil, fmt.Errorf("[%s] expected %d module packages, loaded %d", cfgID, ExpectedPackages, len(p.Pkgs))
+	if len(p.Pkgs) < ExpectedPackages && o.Dir == "" {
+		return nil, fmt.Errorf("[%s] expected at least %d module packages, loaded %d", cfgID, ExpectedPackages, len(p.Pkgs))
 	}
 	for _, pk := range p.All {
 		for _, f := range pk.Syntax {
